@@ -172,7 +172,9 @@ func fsmApplyAdd(c *Ctx, rule string, applyAdd *ssa.Function) {
 			return false
 		}
 		return tableName(p, t.Args[0]) == "FSMStateTable" && t.Args[1].Op == "global" && strings.HasSuffix(t.Args[1].Name, "FSMStateTableKey") &&
-			t.Args[2].Has(func(x *Term) bool { return x.Op == "call" && x.Fn != nil && x.Fn.Name() == "encode" && x.Args[0].IsParam(applyAdd, stateI) })
+			t.Args[2].Has(func(x *Term) bool {
+				return x.Op == "call" && x.Fn != nil && x.Fn.Name() == "encode" && x.Args[0].IsParam(applyAdd, stateI)
+			})
 	})
 	c.Check(hasTree && hasState, rule, name+":one-batch", muts[0].Pos(), "single Mutate of (tree mutations + FSM state marker)", fmt.Sprintf("the batch written per entry contains tree mutations=%v, applied-index marker (FSMStateTable/FSMStateTableKey ← encode(state))=%v: %s", hasTree, hasState, mt))
 	// metadata
